@@ -388,6 +388,15 @@ pub fn run(args: &Args) -> Report {
         let label = format!("{}70 000-byte writes | {}", LABEL_PREFIX, describe(&cfg));
         cases.push(Case { try_unbounded: false, max_k: if cap == 0 { if thorough { 2 } else { 1 } } else if thorough && cap == 64 { 1 } else { 0 }, label, exec: Box::new(move |r| exec(&cfg, r)) });
     }
+    // "writes of any size": ONE write of 17 000 000 bytes (more than the 16 MiB a WebSocket frame may carry under
+    // tungstenite's default configuration, which is what the shipped binaries use); canonical schedule only
+    {
+        let (a, b) = ((2u32, 1u32), (2u32, 1u32));
+        let streams = vec![(1u8, 0usize, vec![Op::W(100), Op::W(17_000_000), Op::W(1)], vec![Op::W(2)])];
+        let cfg = Cfg { a, b, cap: 0, streams, rd: [65_536, 4096], horizon: 400_000 };
+        let label = format!("{}one write of 17 000 000 bytes | {}", LABEL_PREFIX, describe(&cfg));
+        cases.push(Case { try_unbounded: false, max_k: 0, label, exec: Box::new(move |r| exec(&cfg, r)) });
+    }
     let plan = Plan {
         ks: if thorough { vec![0, 1, 2, 3] } else { vec![0, 1, 2] },
         env: 0,
